@@ -4,14 +4,19 @@ import fcntl, hashlib, json, os, random, re, shutil, subprocess, sys, tempfile, 
 
 VERIF = os.path.dirname(os.path.dirname(os.path.abspath(__file__)))
 REPO = os.environ.get("VERIF_REPO", "/repo")
-CACHE = os.path.join(VERIF, ".cache")
+# VERIF_ALT=<name> (development aid, never set by a registered command): evaluate a different checkout (VERIF_REPO) without
+# touching /repo, the main build cache, the evidence or the replay files - own target directory and harness copy, Coq not rebuilt
+ALT = os.environ.get("VERIF_ALT")
+MAIN_CACHE = os.path.join(VERIF, ".cache")
+CACHE = os.path.join(MAIN_CACHE, "alt-" + ALT) if ALT else MAIN_CACHE
+OUT_ROOT = CACHE if ALT else VERIF
 COQ = os.path.join(VERIF, "coq")
 TARGET = os.path.join(CACHE, "target")
 RUSTFLAGS = "--cfg tokio_unstable --cfg pnordahl_monorail_verif"
 BIN_MONORAIL = os.path.join(TARGET, "debug", "monorail")
 BIN_VHARNESS = os.path.join(TARGET, "debug", "vharness")
 BIN_VHELPER = os.path.join(TARGET, "debug", "vhelper")
-BIN_VMODEL = os.path.join(CACHE, "ocaml", "vmodel")
+BIN_VMODEL = os.path.join(MAIN_CACHE, "ocaml", "vmodel")
 
 FORBIDDEN = re.compile(r"\b(Admitted|admit|Axiom|Axioms|Parameter|Parameters|Conjecture|Conjectures|Abort All|bypass_check)\b|Unset\s+Guard|Unset\s+Positivity|Unset\s+Universe|-type-in-type|-impredicative-set|Admit Obligations")
 ALLOWED_AXIOMS = set()  # every property theorem is expected to be closed under the global context
@@ -108,7 +113,15 @@ def cargo_env():
 
 def build_rust(log):
     """Rebuild harness (path dependency on /repo, so it follows the working tree) and the monorail binary."""
-    rc, out = sh(["cargo", "build", "--offline", "--bins"], cwd=os.path.join(VERIF, "harness"), env=cargo_env())
+    hdir = os.path.join(VERIF, "harness")
+    if ALT:
+        hdir = os.path.join(CACHE, "harness")
+        shutil.rmtree(hdir, ignore_errors=True)
+        shutil.copytree(os.path.join(VERIF, "harness"), hdir, ignore=shutil.ignore_patterns("target"))
+        ct = os.path.join(hdir, "Cargo.toml")
+        txt = open(ct).read().replace('path = "/repo"', 'path = "%s"' % REPO)
+        open(ct, "w").write(txt)
+    rc, out = sh(["cargo", "build", "--offline", "--bins"], cwd=hdir, env=cargo_env())
     log.append(out[-3000:])
     if rc != 0:
         return False, "cargo build of harness failed:\n" + out[-3000:]
@@ -129,6 +142,7 @@ def coq_sources():
 def build_coq(log):
     """Full .vo build (incremental through make), forbidden-token scan, extraction, vmodel."""
     problems = []
+    if ALT: return True, problems
     for f in coq_sources():
         txt = open(f).read()
         txt_nc = re.sub(r"\(\*.*?\*\)", "", txt, flags=re.S)
@@ -145,7 +159,7 @@ def build_coq(log):
         problems.append("coq make failed:\n" + out[-2500:])
     # extraction output -> vmodel (only when model.ml changed)
     src = os.path.join(COQ, "model.ml")
-    dst_dir = os.path.join(CACHE, "ocaml"); os.makedirs(dst_dir, exist_ok=True)
+    dst_dir = os.path.join(MAIN_CACHE, "ocaml"); os.makedirs(dst_dir, exist_ok=True)
     if os.path.exists(src):
         h = hashlib.sha256(open(src, "rb").read() + open(os.path.join(VERIF, "ocaml", "vmodel.ml"), "rb").read()).hexdigest()
         stamp = os.path.join(dst_dir, "stamp")
@@ -248,14 +262,14 @@ def load_known():
     return {"findings": []}
 
 def write_replay(prop, kind, case, detail):
-    d = os.path.join(VERIF, "replays", prop); os.makedirs(d, exist_ok=True)
+    d = os.path.join(OUT_ROOT, "replays", prop); os.makedirs(d, exist_ok=True)
     h = hashlib.sha1(json.dumps(case, sort_keys=True, default=str).encode()).hexdigest()[:12]
     fn = os.path.join(d, "%s-%s.json" % (kind, h))
     json.dump({"property": prop, "kind": kind, "case": case, "detail": detail}, open(fn, "w"), indent=1, default=str)
     return fn
 
 def write_evidence(ctx, level_note, obligations, discharged, theorem_names, trusted_base, rule, violations, extra=None):
-    d = os.path.join(VERIF, "evidence"); os.makedirs(d, exist_ok=True)
+    d = os.path.join(OUT_ROOT, "evidence"); os.makedirs(d, exist_ok=True)
     cov = {
         "obligations": obligations, "discharged": discharged,
         "checker_cmd": "make -C coq (coqc 8.16.1, full .vo build) + coqc Print Assumptions on: " + ", ".join(theorem_names),
